@@ -106,16 +106,29 @@ def run(ctx):
         d1.fail('Reaction._math_compatible_reaction', 'not-a-copy', 'with copy=True does not return a copy of the operand', mc, mc.node)
     # ... and never changes the operand object itself (the in-place operators call it with copy=False)
     rx_mod = prog.module(RX)
-    mutators = set()
-    for name_, g_ in rx_mod.functions.items():
-        if not g_.params:
-            continue
-        q0 = g_.params[0]
-        for n in walk_no_nested(g_.node):
-            if isinstance(n, (ast.Attribute, ast.Subscript)) and isinstance(n.ctx, ast.Store) and _root_name(n) == q0:
-                mutators.add(name_)
-            if isinstance(n, ast.Call) and isinstance(n.func, ast.Attribute) and src(n.func.value) == q0 and n.func.attr in MUTATING_METHODS:
-                mutators.add(name_)
+    # module functions that change the object handed to them: name -> positions of the parameters changed in place (directly, or by
+    # handing the parameter on to another such function: fixpoint)
+    mutators = {}
+    grew = True
+    while grew:
+        grew = False
+        for name_, g_ in rx_mod.functions.items():
+            for pos_, q in enumerate(g_.params):
+                if pos_ in mutators.get(name_, ()):
+                    continue
+                hit = False
+                for n in walk_no_nested(g_.node):
+                    if isinstance(n, (ast.Attribute, ast.Subscript)) and isinstance(n.ctx, ast.Store) and _root_name(n) == q:
+                        hit = True
+                    if isinstance(n, ast.Call) and isinstance(n.func, ast.Attribute) and src(n.func.value) == q and n.func.attr in MUTATING_METHODS:
+                        hit = True
+                    if isinstance(n, ast.Call) and isinstance(n.func, ast.Name) and n.func.id in mutators:
+                        for j, a_ in enumerate(n.args):
+                            if j in mutators[n.func.id] and isinstance(a_, ast.Name) and a_.id == q:
+                                hit = True
+                if hit and not any(isinstance(n, ast.Name) and n.id == q and isinstance(n.ctx, ast.Store) for n in walk_no_nested(g_.node)):
+                    mutators.setdefault(name_, set()).add(pos_)
+                    grew = True
     all_ps, _ = run_paths(mc.node)
     touched = None
     n_normal = 0
@@ -132,8 +145,10 @@ def run(ctx):
             if e.kind in ('store', 'augstore') and _root_name(e.node) == p_rxn:
                 touched = (e, 'stores through the operand (%s)' % src(e.node))
             if e.kind == 'call':
-                if e.target in mutators and e.value and isinstance(e.value[0], Form) and e.value[0] == Form.atom(p_rxn):
-                    touched = (e, 'passes the operand itself to %s, which changes its first argument in place' % e.target)
+                if e.target in mutators and e.value:
+                    for j in sorted(mutators[e.target]):
+                        if j < len(e.value) and isinstance(e.value[j], Form) and e.value[j] == Form.atom(p_rxn):
+                            touched = (e, 'passes the operand itself to %s, which changes its argument %d in place' % (e.target, j + 1))
                 parts = e.target.split('.')
                 if len(parts) == 2 and parts[0] == p_rxn and parts[1] in MUTATING_METHODS:
                     touched = (e, 'calls the mutator %s on the operand itself' % e.target)
